@@ -664,6 +664,39 @@ func (c *Cache) DeleteRange(keys [][]byte, min, max int64) {
 
 		c.decreaseSize(origSize - uint64(e.size()))
 	}
+
+	// A snapshot whose write failed stays in the cache until it is retried: it is read
+	// like the rest of the cache and will be written to a file, so the delete applies to it
+	// as well. (A snapshot being written is not touched; the engine does not delete then.)
+	if c.snapshot != nil && !c.snapshotting && c.snapshot.Size() > 0 {
+		var removed uint64
+		for _, k := range keys {
+			e := c.snapshot.store.entry(k)
+			if e == nil {
+				continue
+			}
+			origSize := uint64(e.size())
+			if min == math.MinInt64 && max == math.MaxInt64 {
+				c.snapshot.store.remove(k)
+				removed += origSize + uint64(len(k))
+				continue
+			}
+			e.filter(min, max)
+			if e.count() == 0 {
+				c.snapshot.store.remove(k)
+				removed += origSize + uint64(len(k))
+				continue
+			}
+			removed += origSize - uint64(e.size())
+		}
+		if have := atomic.LoadUint64(&c.snapshotSize); removed > have {
+			removed = have
+		}
+		if removed > 0 {
+			atomic.AddUint64(&c.snapshotSize, ^(removed - 1))
+			atomic.StoreUint64(&c.snapshot.size, atomic.LoadUint64(&c.snapshotSize))
+		}
+	}
 	atomic.StoreInt64(&c.stats.MemSizeBytes, int64(c.Size()))
 }
 
@@ -688,14 +721,39 @@ func (c *Cache) values(key []byte) Values {
 	return v
 }
 
+// entryCount returns the number of keys the cache holds, those of a snapshot whose write
+// failed (which stays part of the cache until it is retried) included.
+func (c *Cache) entryCount() int {
+	c.mu.RLock()
+	defer c.mu.RUnlock()
+	n := c.store.count()
+	if c.snapshot != nil && !c.snapshotting && c.snapshot.Size() > 0 {
+		n += c.snapshot.store.count()
+	}
+	return n
+}
+
 // ApplyEntryFn applies the function f to each entry in the Cache.
 // ApplyEntryFn calls f on each entry in turn, within the same goroutine.
 // It is safe for use by multiple goroutines.
 func (c *Cache) ApplyEntryFn(f func(key []byte, entry *entry) error) error {
 	c.mu.RLock()
 	store := c.store
+	var failed storer
+	if c.snapshot != nil && !c.snapshotting && c.snapshot.Size() > 0 {
+		// a snapshot whose write failed is still part of the cache until it is retried
+		failed = c.snapshot.store
+	}
 	c.mu.RUnlock()
-	return store.applySerial(f)
+	if err := store.applySerial(f); err != nil || failed == nil {
+		return err
+	}
+	return failed.applySerial(func(key []byte, entry *entry) error {
+		if store.entry(key) != nil {
+			return nil // seen above
+		}
+		return f(key, entry)
+	})
 }
 
 // CacheLoader processes a set of WAL segment files, and loads a cache with the data
